@@ -4,7 +4,7 @@ SPEC = make("C13", "Properties.C13",
             ["C13_poll_ok", "C13_counts_are_totals", "C13_completes_with_counts", "C13_env_write_contract"],
             [("pair", "bridge", 1.0)],
             "one established stream bridged (into_copy_bidirectional_with_buf) to a scripted local side at one or both "
-            "endpoints: local reads deliver chunks of 0-5 bytes, end-of-stream or an error; local writes accept 1-3 bytes, "
+            "endpoints: local reads deliver chunks of 0-5 bytes (in one script out of 48: up to 70 kB), end-of-stream or an error; local writes accept 1-3 bytes, "
             "everything, return Pending once or fail; shutdown completes, pends or fails; the peer is a plain application "
             "(writes, reads, shutdown, abort) or another bridge; windows 1-8, thresholds independent; transport ends at "
             "random points; every bridge poll's result, bytes written to the local side, shutdown flag, frames and wake-ups "
